@@ -58,6 +58,14 @@ type c17In struct {
 	Size string `json:"size,omitempty"`
 	// site: consumer 0 proxy, 1 buffering proxy, 2 fastcgi (Limit, BodyLen, Chunked as above)
 	Consumer int `json:"consumer,omitempty"`
+	// site, chunked: Chunks = the sizes of the chunks on the wire (sum = BodyLen; empty = the default 7-way split);
+	// ChunkStyle 0 plain sizes, 1 a chunk extension on every size line, 2 upper-case hex with leading zeros and a
+	// quoted extension, 3 extensions + trailer fields after the last chunk (announced by a Trailer header)
+	Chunks     []int `json:"chunks,omitempty"`
+	// site: the upload announces Expect: 100-continue (sent without waiting; interim 100 responses are skipped);
+	// generated for bodies within the limit only
+	Expect bool `json:"expect,omitempty"`
+	ChunkStyle int   `json:"chunkstyle,omitempty"`
 	// listener: per site read, header, write, idle (set?, ns) and the header-size limit; Live = through
 	// a Casketfile (timeouts / limits directives) and casket.Start instead of hand-built configs
 	Sites [][9]int64 `json:"sites,omitempty"`
@@ -151,6 +159,8 @@ func c17Run(in0 interface{}) Result {
 		return c17RunParse(in)
 	case "site":
 		return c17RunSite(in)
+	case "chunkread":
+		return c17RunChunkRead(in)
 	case "listener":
 		return c17RunListener(in)
 	case "hdr431":
@@ -665,6 +675,80 @@ func c17GenDeep(r *Rand, tier string) []interface{} {
 			}
 		}
 	}
+	// ---- raw chunked uploads at limit-1, limit, limit+1 (and a bit more): the limit counts DECODED bytes whatever
+	// the segmentation on the wire — 1-byte chunks, one big chunk, a boundary chunk that straddles the limit, random
+	// sizes; with chunk extensions, upper-case/zero-padded sizes and trailer fields; three consumers ----
+	chunkLimits := []int64{1, 10, 4096}
+	if tier == "thorough" {
+		chunkLimits = []int64{1, 2, 10, 100, 4096, 5000, 32769, 65500, 70000}
+	}
+	for _, lim := range chunkLimits {
+		l := int(lim)
+		for consumer := 0; consumer < 3; consumer++ {
+			for _, n := range []int{l - 1, l, l + 1, l + r.Range(2, 600)} {
+				if n <= 0 {
+					continue
+				}
+				var splits [][]int
+				splits = append(splits, []int{n}) // one chunk
+				if n >= 2 {
+					splits = append(splits, []int{n - 1, 1}, []int{1, n - 1}) // the last / first byte alone
+				}
+				if n > l && l >= 1 {
+					splits = append(splits, []int{l, n - l}) // a chunk ending exactly at the limit
+					if l >= 2 {
+						splits = append(splits, []int{l - 1, n - l + 1}) // a chunk straddling the limit
+					}
+				}
+				if n <= 300 { // one-byte chunks
+					ones := make([]int, n)
+					for i := range ones {
+						ones[i] = 1
+					}
+					splits = append(splits, ones)
+				}
+				nr := 2
+				if tier == "thorough" {
+					nr = 6
+				}
+				for k := 0; k < nr; k++ { // random sizes
+					var sp []int
+					for left := n; left > 0; {
+						c := r.Range(1, 1+left/(1+r.Intn(4)))
+						if c > left {
+							c = left
+						}
+						sp = append(sp, c)
+						left -= c
+					}
+					splits = append(splits, sp)
+				}
+				for si, sp := range splits {
+					if consumer == 0 && n <= 700 { // the same wire through the limits middleware in-process: decoded bytes, error
+						var script, bufs []int
+						for k := r.Intn(6); k > 0; k-- {
+							script = append(script, r.Range(1, 40))
+						}
+						for k := r.Range(1, 3); k > 0; k-- {
+							bufs = append(bufs, []int{1, 2, 3, 7, 64, l, l + 1, l + 2, 4096}[r.Intn(9)])
+						}
+						out = append(out, &c17In{Kind: "chunkread", Limit: lim, BodyLen: n, Chunks: sp, ChunkStyle: (si + n) % 4, Script: script, Bufs: bufs})
+					}
+					out = append(out, &c17In{Kind: "site", Consumer: consumer, Chunked: true, Limit: lim, BodyLen: n, Chunks: sp, ChunkStyle: (si + consumer + n) % 4})
+				}
+			}
+		}
+	}
+	// ---- Expect: 100-continue uploads at the boundary (limit-1, limit), both framings, three consumers: delivered
+	// intact, 200, the pipelined follow-up answered ----
+	for _, lim := range chunkLimits {
+		for consumer := 0; consumer < 3; consumer++ {
+			for _, n := range []int{int(lim) - 1, int(lim)} {
+				out = append(out, &c17In{Kind: "site", Consumer: consumer, Limit: lim, BodyLen: n, Expect: true},
+					&c17In{Kind: "site", Consumer: consumer, Chunked: true, Limit: lim, BodyLen: n, Expect: true, Chunks: []int{(n + 1) / 2, n / 2}, ChunkStyle: n % 4})
+			}
+		}
+	}
 	// ---- every server object of a listener: TLS sites or not, HTTP/2 on/off, QUIC flag on/off ----
 	nServers, nServersLive := 260, 24
 	if tier == "thorough" {
@@ -1034,22 +1118,15 @@ func c17RunSite(in *c17In) Result {
 	body := bodyOf(in.BodyLen)
 	var sb bytes.Buffer
 	fmt.Fprintf(&sb, "POST %s HTTP/1.1\r\nHost: %s\r\nX-Case: %s\r\nContent-Type: application/octet-stream\r\n", target, site.addr, id)
+	if in.Expect {
+		sb.WriteString("Expect: 100-continue\r\n")
+	}
 	if in.Chunked {
+		if in.ChunkStyle == 3 {
+			sb.WriteString("Trailer: X-Sum, X-Note\r\n")
+		}
 		sb.WriteString("Transfer-Encoding: chunked\r\n\r\n")
-		step := 1 + in.BodyLen/7
-		if step > 8000 {
-			step = 8000
-		}
-		for i := 0; i < len(body); i += step {
-			j := i + step
-			if j > len(body) {
-				j = len(body)
-			}
-			fmt.Fprintf(&sb, "%x\r\n", j-i)
-			sb.Write(body[i:j])
-			sb.WriteString("\r\n")
-		}
-		sb.WriteString("0\r\n\r\n")
+		sb.Write(c17ChunkedWire(in, body))
 	} else {
 		fmt.Fprintf(&sb, "Content-Length: %d\r\n\r\n", len(body))
 		sb.Write(body)
@@ -1066,6 +1143,9 @@ func c17RunSite(in *c17In) Result {
 	br := bufio.NewReader(conn)
 	status, followup := -1, -2
 	r1, err := http.ReadResponse(br, &http.Request{Method: "POST"})
+	for err == nil && r1.StatusCode == 100 { // interim response of an Expect: 100-continue upload
+		r1, err = http.ReadResponse(br, &http.Request{Method: "POST"})
+	}
 	if ne, ok := err.(net.Error); ok && ne.Timeout() {
 		c17Stuck++
 		r := fail("upload was not answered within 10s")
@@ -1130,6 +1210,12 @@ func c17RunSite(in *c17In) Result {
 	if over {
 		ow = "over"
 	}
+	if in.Chunked && (len(in.Chunks) > 0 || in.ChunkStyle != 0) {
+		framing = fmt.Sprintf("chunked-varied-style%d", in.ChunkStyle)
+	}
+	if in.Expect {
+		framing += "-expect"
+	}
 	sig := fmt.Sprintf("site:%s:%s:%s", kind, framing, ow)
 	// precise classes for the deviations once found on real sites (F-C17-4/5/6): the body is cut
 	// correctly and nothing else is wrong, only the status the client sees is not 413.  The spec in
@@ -1147,6 +1233,111 @@ func c17RunSite(in *c17In) Result {
 	term := cApp("CSite", cN(uint64(in.Consumer)), cBool(in.Chunked), cZ(in.Limit), cNat(in.BodyLen), cZ(int64(status)), cZ(backend), cBool(prefix), cZ(int64(followup)))
 	return Result{Term: term, Obs: map[string]interface{}{"status": status, "backend_received": backend, "backend_prefix_ok": prefix, "pipelined_followup": followup},
 		Sig: sig, Class: fmt.Sprintf("site:%s:%s:%s", kind, framing, ow), Nontrivial: over}
+}
+
+// c17ChunkedWire frames body as chunks of the sizes in.Chunks (default: a 7-way split) in the spelling in.ChunkStyle
+// selects, ending with the last-chunk, the trailer fields of style 3 and the empty line.
+func c17ChunkedWire(in *c17In, body []byte) []byte {
+	var sb bytes.Buffer
+	sizes := in.Chunks
+	if len(sizes) == 0 {
+		step := 1 + in.BodyLen/7
+		if step > 8000 {
+			step = 8000
+		}
+		for i := 0; i < len(body); i += step {
+			if i+step > len(body) {
+				sizes = append(sizes, len(body)-i)
+			} else {
+				sizes = append(sizes, step)
+			}
+		}
+	}
+	sizeLine := func(n, k int) string {
+		switch in.ChunkStyle {
+		case 1:
+			return fmt.Sprintf("%x;seq=%d", n, k)
+		case 2:
+			return fmt.Sprintf("00%X;note=\"a;b=c\"", n)
+		case 3:
+			return fmt.Sprintf("%x;x", n)
+		}
+		return fmt.Sprintf("%x", n)
+	}
+	i := 0
+	for k, n := range sizes {
+		if n <= 0 || i+n > len(body) {
+			continue
+		}
+		sb.WriteString(sizeLine(n, k) + "\r\n")
+		sb.Write(body[i : i+n])
+		sb.WriteString("\r\n")
+		i += n
+	}
+	if i < len(body) { // (a replay file whose sizes do not add up: the rest as one chunk)
+		fmt.Fprintf(&sb, "%x\r\n", len(body)-i)
+		sb.Write(body[i:])
+		sb.WriteString("\r\n")
+	}
+	sb.WriteString(sizeLine(0, len(sizes)) + "\r\n")
+	if in.ChunkStyle == 3 {
+		fmt.Fprintf(&sb, "X-Sum: %d\r\nX-Note: after the last chunk\r\n", len(body))
+	}
+	sb.WriteString("\r\n")
+
+	return sb.Bytes()
+}
+
+// the real limits middleware over a chunked request as net/http parses it from the wire (http.ReadRequest gives the
+// request the same chunked body reader the server uses); the handler behind it reads with the given buffer sizes,
+// cycling, until the first error
+func c17RunChunkRead(in *c17In) Result {
+	fail := func(msg string) Result {
+		return Result{Term: "(CStatus false 0%Z)", Obs: msg, Class: "chunkread:setup-error", Sig: "chunkread:setup-error", Direct: msg}
+	}
+	body := bodyOf(in.BodyLen)
+	wire := c17ChunkedWire(in, body)
+	hdr := "POST /up HTTP/1.1\r\nHost: c17.test\r\n"
+	if in.ChunkStyle == 3 {
+		hdr += "Trailer: X-Sum, X-Note\r\n"
+	}
+	raw := append([]byte(hdr+"Transfer-Encoding: chunked\r\n\r\n"), wire...)
+	// the connection delivers the bytes in pieces of the sizes in.Script (then all that is left)
+	req, err := http.ReadRequest(bufio.NewReaderSize(&scriptReader{data: raw, script: append([]int(nil), in.Script...)}, 4096)) // the server's connection buffer size
+	if err != nil {
+		return fail("ReadRequest: " + err.Error())
+	}
+	cfg, err := setupDirective("limits", fmt.Sprintf("limits {\n body /up %d\n}\n", in.Limit))
+	if err != nil {
+		return fail("setup: " + err.Error())
+	}
+	var got []byte
+	code := 0
+	bufs := in.Bufs
+	if len(bufs) == 0 {
+		bufs = []int{512}
+	}
+	inner := handlerFunc(func(w http.ResponseWriter, r *http.Request) (int, error) {
+		for i := 0; i < 1000000; i++ {
+			p := make([]byte, bufs[i%len(bufs)])
+			n, err := r.Body.Read(p)
+			got = append(got, p[:n]...)
+			if err != nil {
+				code = c17ErrCode(err)
+				break
+			}
+		}
+		return 0, nil
+	})
+	compile(cfg.Middleware(), inner).ServeHTTP(httptest.NewRecorder(), req)
+	over := int64(in.BodyLen) > in.Limit
+	trailerOK := true
+	if in.ChunkStyle == 3 && code == 1 {
+		trailerOK = req.Trailer.Get("X-Sum") == strconv.Itoa(in.BodyLen)
+	}
+	term := cApp("CChunkRead", cZ(in.Limit), cBytes(wire), cNat(in.BodyLen), cBytes(got), cN(uint64(code)), cBool(trailerOK))
+	return Result{Term: term, Obs: map[string]interface{}{"delivered_len": len(got), "err": code, "wire_len": len(wire), "trailer_ok": trailerOK},
+		Sig: fmt.Sprintf("chunkread:style%d:over=%v", in.ChunkStyle, over), Class: fmt.Sprintf("chunkread:style%d:over=%v:err%d", in.ChunkStyle, over, code), Nontrivial: true}
 }
 
 func c17RunHdr431(in *c17In) Result {
